@@ -15,6 +15,7 @@ import (
 	"regexp"
 	"strings"
 	"sync"
+	"time"
 
 	forwarder "github.com/saucelabs/forwarder"
 	fheader "github.com/saucelabs/forwarder/header"
@@ -187,6 +188,11 @@ func splitBy(b []byte, sizes []int) [][]byte {
 func (w *h1World) writeResponse(conn net.Conn, ex *h1Exchange, rec *originRec) bool {
 	r := &ex.Resp
 	tok := ex.Req.Token
+	if r.DelayS > 0 {
+		// a slow origin: no limit of the proxy applies while it waits for the answer to a request it has fully received
+		time.Sleep(time.Duration(r.DelayS) * time.Second)
+		w.env.Probe("slow_origin_answer")
+	}
 	var head bytes.Buffer
 	fmt.Fprintf(&head, "%s %03d %s\r\nX-Token: %s\r\n", r.Proto, r.Status, r.Reason, tok)
 	for _, f := range r.Fields {
@@ -456,7 +462,7 @@ func genH1Case(t *tape.Tape, tier, mode string) *h1Case {
 	c.WOne = t.Pick(6, 2, 1)
 	c.WRand = t.Pick(2, 4, 2) * 2
 	c.ProxyName = []string{"forwarder", "fwd-A", "p"}[t.Pick(4, 1, 1)]
-	nConns := 1 + t.Pick(5, 3, 1)
+	nConns := 1 + t.Pick(5, 3, 1, 1)
 	tok := 0
 	richReq, richResp := mode == "req", mode == "resp"
 	if mode == "req" {
@@ -527,10 +533,18 @@ func genH1Case(t *tape.Tape, tier, mode string) *h1Case {
 			if last && t.Chance(1, 6) {
 				r.Fields = append(r.Fields, h1.Field{Name: "Connection", Value: "close"})
 			}
+			if richReq && r.Method == "GET" && r.BodyKind == "none" && r.Proto == "HTTP/1.1" && t.Chance(1, 10) {
+				// an upgrade offer (which the scripted origin declines by answering normally)
+				r.Fields = append(r.Fields, h1.Field{Name: "Connection", Value: "Upgrade"}, h1.Field{Name: "Upgrade", Value: []string{"websocket", "h2c", "foo/2"}[t.Intn(3)]},
+					h1.Field{Name: "Sec-WebSocket-Key", Value: "dGhlIHNhbXBsZSBub25jZQ=="})
+			}
 			r.Pipeline = i > 0 && t.Chance(1, 3)
 			ex.Resp = genResp(t, r.Method, richResp, last)
 			if r.Proto == "HTTP/1.0" && ex.Resp.BodyKind == "chunked" && !richResp {
 				ex.Resp.BodyKind = "cl"
+			}
+			if !ex.Resp.Early && t.Chance(1, 12) {
+				ex.Resp.DelayS = []int{61, 75, 400, 3700}[t.Pick(3, 3, 2, 1)]
 			}
 			if n := len(conn.Ex); n > 0 && conn.Ex[n-1].Resp.Early {
 				r.Pipeline = false // the previous exchange's client waits for its response in the middle of the upload
@@ -905,6 +919,17 @@ func (w *h1World) checkRequest(rec *clientRec, or *originRec, siteUser, sitePass
 		}
 		exp[k] = append([]string{}, v...)
 	}
+	// "Upgrade unless an upgrade is being requested": an offer (Connection: upgrade + Upgrade) is passed on
+	offersUpgrade := false
+	for _, tk := range splitList(cm["connection"]) {
+		if lower(tk) == "upgrade" && len(cm["upgrade"]) > 0 {
+			offersUpgrade = true
+		}
+	}
+	if offersUpgrade {
+		exp["upgrade"] = append([]string{}, cm["upgrade"]...)
+		env.Probe("upgrade_offered_and_declined")
+	}
 	// documented additions
 	viaClient := splitList(cm["via"])
 	xffClient := splitList(cm["x-forwarded-for"])
@@ -964,7 +989,7 @@ func (w *h1World) checkRequest(rec *clientRec, or *originRec, siteUser, sitePass
 	}
 	// Connection at the next hop: only the proxy's own options
 	for _, t := range splitList(om["connection"]) {
-		if lt := lower(t); lt != "close" && lt != "keep-alive" {
+		if lt := lower(t); lt != "close" && lt != "keep-alive" && !(offersUpgrade && lt == "upgrade") {
 			env.Fail("req-hop-by-hop-leak", f+"/connection", "%s: next hop received Connection option %q", tok, t)
 		}
 	}
